@@ -10,9 +10,9 @@ TB = ("TLC 1.8 and the TLA+ semantics of the specification modules; the exact-ar
       "(polynomial automorphisms, rational cell weights); the cell-level cross-check of the exported tables")
 
 CHECKS = {
- "C01": dict(tech="TLC model checking of Plane/ShapeSys + replay of TLC-computed operator behaviours into shapepy under exact realisations",
-   text="TLC checks the region algebra theorems over all regions/pairs of the bounded universes and ResultIsSetAlgebra on the heap model; every operator x ordered pair of pinch-free regions (one-step behaviours computed by TLC from ShapeSys!BinEffect) and TLC-simulated nested programs are executed on real objects under polygon/quadratic/cubic realisations and projected back (witness points classified exactly in the pre-image).",
-   ref="3.1, 3.2, 5.1, 6/C01"),
+ "C01": dict(tech="TLC model checking of Plane/ShapeSys/FollowPath + replay of TLC-computed operator behaviours into shapepy under exact realisations + TLC validation of recorded executions (TraceShapeSys, TraceGeneric)",
+   text="TLC checks the region algebra theorems over all regions/pairs of the bounded universes and ResultIsSetAlgebra on the heap model; every operator x ordered pair of pinch-free regions (one-step behaviours computed by TLC from ShapeSys!BinEffect) and TLC-simulated nested programs are executed on real objects under polygon/quadratic/cubic realisations and projected back (witness points classified exactly in the pre-image). The code-shaped model FollowPath.tla of the path-following operators is checked against the declarative layer on every transversal pair; histories with relative motion (far / rotated frames) and the repository's own test-suite (recorded, validated by TraceGeneric.tla) are included.",
+   ref="II.3, II.4, 3.1, 3.2, 5.1, 6/C01"),
  "C02": dict(tech="TLC-checked Plane tables + exhaustive witness-point replay against PointClass",
    text="Point classes (in/on/out) of every witness of the universe - cell points down to 0.1% of a cell from curved edges, edge points, vertices, far points - come from the specification tables; contains_point/in are compared for both boundary flags on objects of every kind under all realisations and under a transformed frame.", ref="6/C02"),
  "C03": dict(tech="TLC (ThmSubset, ThmBdryIn, SubsetLaw) + replay of all ordered region pairs through `in`/contains_jordan",
@@ -75,7 +75,7 @@ m = {
  "version": 1,
  "setup_cmd": "bin/setup",
  "hooks": {"guard": "SHAPEPY_VERIF_TRACE",
-           "enable": "no source hooks: the harness imports /repo/src (sys.path) and observes the public API from outside; SHAPEPY_VERIF_TRACE=1 only switches on the harness-side call recorder",
+           "enable": "no source hooks in /repo: the harness imports /repo/src (sys.path) and observes the public API from outside; SHAPEPY_VERIF_TRACE=1 switches on the harness-side recorder harness/vshape/record_plugin.py (loaded into pytest with -p) that wraps the shape classes for the duration of a test session; fault injection uses sys.monitoring",
            "baseline_off_cmd": "cd /repo && /venv/bin/python -m pytest -ra -q -p no:cacheprovider --timeout=900 --continue-on-collection-errors",
            "source_commits": [], "add_only": True},
  "engines": [{"name": "vshape", "path": "harness/vshape", "serves_properties": sorted(CHECKS),
